@@ -46,6 +46,12 @@ add("C10", "exploration",
     "deterministic simulation: seeded scene histories against the real tracker with a ground-truth identity reference model",
     "DESIGN.md section 5 C10")
 
+add("C19", "fault_enumeration",
+    "Whole training runs (ModelTrainer.__init__ + train(), one step, tiny UNet) in forked children on an audited file system. Within each explored configuration the durable state is inspected before every mutating FS event (virtual crash), a set of fixed configurations is additionally killed for real (os._exit) before every event index, and seeded runs add real kills and ENOSPC/EIO at seeded events; configurations themselves are sampled by seed. Artifact oracle (configs equal to supplied/used with key blanked, checkpoints iff requested, chunks deleted) on fault-free runs.",
+    "Trusts sys.addaudithook to report every mutating FS operation before it executes (file contents only grow between events); wandb replaced by a fake that persists everything it is told; litdata framework, DataLoader workers and GPUs not simulated.",
+    "deterministic simulation: crash-point enumeration and disk-fault injection on an interposed file system, byte-scan durability oracle",
+    "DESIGN.md section 5 C19")
+
 PENDING = ["C02","C03","C04","C09","C10","C11","C12","C14","C18","C19"]
 
 def main():
